@@ -41,6 +41,11 @@ pub struct Case {
   /// asset by every import (see `asset_subdomain`); such targets may be roots
   #[serde(default)]
   pub asset_world: bool,
+  /// a registry and an entry module importing from it, added by a build of
+  /// its own after a first build of a module that imports `npm:` specifiers
+  /// the packages import too; compared with building both at once
+  #[serde(default)]
+  pub jsr: Option<crate::props::c07::JsrPart>,
 }
 
 fn params(tier: Tier) -> GenParams {
@@ -141,7 +146,15 @@ pub fn spec() -> PropSpec<Case> {
             reload_via_redirect: repeat % 2 == 1,
             json_world: repeat % 8 >= 6,
             asset_world: repeat % 8 == 5,
+            jsr: None,
           }
+        })
+        .prop_flat_map(|case| {
+          (Just(case), proptest::option::weighted(0.1, crate::props::c07::jsr_part_strategy()))
+        })
+        .prop_map(|(mut case, jsr)| {
+          case.jsr = jsr;
+          case
         })
         .boxed()
     },
@@ -333,8 +346,87 @@ fn asset_subdomain(w: &mut World) {
   }
 }
 
+/// Registry packages added by a later build vs built at once with what was
+/// there before: serialised graph and the per-package dependency sets.
+fn registry_steps(j: &crate::props::c07::JsrPart, kind: deno_graph::GraphKind, o: &mut Outcome) {
+  use crate::harness::PlanNpmResolver;
+  const PRE: &str = "file:///pre.ts";
+  let mut served = std::collections::BTreeMap::new();
+  let cache = j.install(&mut served);
+  let pre = deno_graph::ModuleSpecifier::parse(PRE).unwrap();
+  served.insert(
+    pre.clone(),
+    crate::harness::Served::Module {
+      bytes: b"import \"npm:pkg@1\";\nimport \"npm:other@^2/sub\";\nawait import(\"npm:pkg@^1.2\");\n".to_vec().into(),
+      headers: None,
+      final_spec: pre,
+    },
+  );
+  let opts = crate::world::Opts {
+    npm_resolver: true,
+    kind: match kind {
+      deno_graph::GraphKind::All => 0,
+      deno_graph::GraphKind::CodeOnly => 1,
+      deno_graph::GraphKind::TypesOnly => 2,
+    },
+    ..Default::default()
+  };
+  let npm = PlanNpmResolver::default();
+  let build = |steps: &[Vec<&str>]| {
+    let mut graph = ModuleGraph::new(kind);
+    for roots in steps {
+      let mut loader = WorldLoader::new(served.clone());
+      loader.cache = Some(cache.clone());
+      build_into(
+        &mut graph,
+        parse_roots(&roots.iter().map(|r| r.to_string()).collect::<Vec<_>>()),
+        vec![],
+        BuildEnv {
+          loader: &loader,
+          opts: &opts,
+          locker: None,
+          npm: Some(&npm),
+          jsr_version_resolver: None,
+          prefer_cached: j.prefer_cached,
+        },
+        &Schedule::default(),
+        false,
+      )
+      .expect("ungated build");
+    }
+    graph
+  };
+  let main = crate::props::c07::JSR_MAIN;
+  let inc = build(&[vec![PRE], vec![main]]);
+  let once = build(&[vec![PRE, main]]);
+  o.label("registry-added-by-a-later-build");
+  let (a, b) = (obs::graph_json(&inc), obs::graph_json(&once));
+  if a != b {
+    o.violate(
+      "C19/registry/incremental-vs-at-once/graph",
+      format!("incremental={a}\nat-once={b}"),
+    );
+  }
+  let deps = |g: &ModuleGraph| -> BTreeSet<String> {
+    g.packages
+      .packages_with_deps()
+      .flat_map(|(nv, deps)| deps.map(move |d| format!("{nv} -> {d}")).collect::<Vec<_>>())
+      .collect()
+  };
+  let (da, db) = (deps(&inc), deps(&once));
+  if da != db {
+    o.violate(
+      "C19/registry/incremental-vs-at-once/package-dependencies",
+      format!("only incremental: {:?}\nonly at-once: {:?}", da.difference(&db).collect::<Vec<_>>(), db.difference(&da).collect::<Vec<_>>()),
+    );
+  }
+}
+
 pub fn check(case: &Case, _tier: Tier) -> Outcome {
   let mut o = Outcome::default();
+  if let Some(j) = &case.jsr {
+    registry_steps(j, case.build.opts.graph_kind(), &mut o);
+  }
   let restricted;
   let case = if case.asset_world {
     let mut c = case.clone();
